@@ -42,7 +42,7 @@ func runC15(e *Env) {
 	e.S.Floor("C15.new", 7)
 	ruleWrap(e, "C15.wrap", "date")
 	e.S.Floor("C15.table", 20)
-	e.S.Floor("C15.copy", 4)
+	e.S.Floor("C15.copy", 5)
 }
 
 // consistent reports whether order(from,to)=ft, order(from,p)=fp, order(to,p)=tp can hold in a total order.
@@ -300,5 +300,50 @@ func ruleC15Copy(e *Env) {
 	}
 	if n < 4 {
 		e.S.Unk(rule, "date.Filter", "implementations", fmt.Sprintf("only %d concrete filter types found (floor 4)", n), "")
+	}
+	// "the filter keeps the bounds it was built with": a filter's fields are written only while it is being built —
+	// every store into a filter struct goes to a fresh allocation; no method (Contains has pointer receivers) and no
+	// other function writes one through a receiver, parameter or loaded pointer
+	isFilterStruct := func(t types.Type) bool {
+		if p, ok := t.Underlying().(*types.Pointer); ok {
+			t = p.Elem()
+		}
+		nt, ok := t.(*types.Named)
+		if !ok || nt.Obj().Pkg() == nil || nt.Obj().Pkg() != sp.Pkg || iface == nil {
+			return false
+		}
+		_, isStruct := nt.Underlying().(*types.Struct)
+		return isStruct && (types.Implements(nt, iface) || types.Implements(types.NewPointer(nt), iface))
+	}
+	bad, stores := "", 0
+	for _, fn := range e.PkgFuncs("date") {
+		for _, b := range fn.Blocks {
+			for _, in := range b.Instrs {
+				st, ok := in.(*ssa.Store)
+				if !ok {
+					continue
+				}
+				base := st.Addr
+				if fa, ok := base.(*ssa.FieldAddr); ok {
+					base = fa.X
+				}
+				if !isFilterStruct(base.Type()) {
+					continue
+				}
+				stores++
+				// a fresh allocation (in the constructor or a helper of it) is a filter still being built
+				if _, fresh := base.(*ssa.Alloc); !fresh && bad == "" {
+					bad = fmt.Sprintf("%s writes a field of a filter outside its construction (%s)", flow.FnName(fn), e.posOf(st))
+				}
+			}
+		}
+	}
+	switch {
+	case bad != "":
+		e.S.Bad(rule, "date.Filter", "frozen", bad+": the filter does not keep the bounds it was built with", "", "")
+	case stores == 0:
+		e.S.Unk(rule, "date.Filter", "frozen", "no store into a filter struct found, not even in the constructor", "")
+	default:
+		e.S.Ok(rule, "date.Filter", "frozen", fmt.Sprintf("all %d stores into filter structs initialise a fresh allocation (a filter still being built); none goes through a receiver, parameter or loaded pointer", stores), "")
 	}
 }
